@@ -49,7 +49,7 @@ template<class T> static int one_type(const char* name) {
 		  std::vector<byte> got(want.size()); size_t n = 0; while (n < got.size()) { ssize_t q = ::read(fd[1], got.data() + n, got.size() - n); if (q <= 0) break; n += q; }
 		  if (n != want.size() || memcmp(got.data(), want.data(), want.size()) != 0) { printf("REPRODUCED Socket << %s: bytes differ (order %d then %d, pattern %d)\n", name, (int)e, (int)e2, k); return 1; }
 		  size_t cut = 1 + k % (want.size() - 1);
-		  std::thread t([&] { if (::write(fd[1], want.data(), cut)) {} usleep(20000); if (::write(fd[1], want.data() + cut, want.size() - cut)) {} });
+		  std::thread t([&] { if (::write(fd[1], want.data(), cut)) {} usleep(60000); if (::write(fd[1], want.data() + cut, want.size() - cut)) {} });
 		  Socket rd(fd[0]); rd.setEndian(e); T a3, c3, d3; rd >> a3; rd.setEndian(e2); rd >> c3 >> d3; t.join();
 		  if (!same(a3, v) || !same(c3, w) || !same(d3, v)) { printf("REPRODUCED Socket >> %s with the bytes arriving in two pieces cut at %d (order %d then %d, pattern %d)\n", name, (int)cut, (int)e, (int)e2, k); return 1; }
 		  close(fd[1]); }
